@@ -119,7 +119,10 @@ func TestVerif_C07_h2frames(t *testing.T) {
 	defer peer.closeAll()
 	base := "http://" + peer.ln.Addr().String()
 	mk := func() *Client {
-		return C().SetTimeout(10 * time.Second).EnableH2C().EnableForceHTTP2().SetLogger(nil)
+		// a graceful GOAWAY makes the transport retry on a new connection (which gets the same script)
+		// with exponential back-off until the client timeout: keep that timeout short, the watchdog
+		// (the oracle) stays at 15 s
+		return C().SetTimeout(4 * time.Second).EnableH2C().EnableForceHTTP2().SetLogger(nil)
 	}
 	matrix := c07H2FrameMatrix()
 	s.Count("matrix-size:" + strconv.Itoa(len(matrix)))
@@ -205,7 +208,7 @@ func TestVerif_C07_h2frames(t *testing.T) {
 				}
 			case <-time.After(15 * time.Second):
 				s.Count("wedged")
-				s.Observe(id, false, "", true, human, "call did not return within 15 s although the peer closed the connection and the client timeout is 10 s")
+				s.Observe(id, false, "", true, human, "call did not return within 15 s although the peer closed the connection and the client timeout is 4 s")
 				wedges++
 			}
 			c.GetTransport().CloseIdleConnections()
